@@ -25,6 +25,7 @@ import (
 	"sync"
 	"time"
 
+	"github.com/safing/portbase/config"
 	"github.com/safing/portbase/database"
 	_ "github.com/safing/portbase/database/dbmodule"
 	"github.com/safing/portbase/database/query"
@@ -46,6 +47,7 @@ type opT struct {
 	Exp  string `json:"exp"`
 	Flag bool   `json:"flag"`
 	Ks   []int  `json:"ks"`
+	N    int    `json:"n"`
 }
 
 type stepT struct {
@@ -82,7 +84,8 @@ type objT struct {
 }
 
 var (
-	ids     = []string{"a", "b"}
+	ids     = []string{"a", "b", "d"}
+	derived string // EventID the package derived for the notifications of this history that were given none
 	dbi     = database.NewInterface(nil)
 	sub     *database.Subscription
 	hist    int
@@ -90,14 +93,25 @@ var (
 	guids   map[string]int
 	release chan struct{}
 	lwg     sync.WaitGroup
-	testMod *modules.Module
+	listenerGIDs []string
 )
 
-const hangTimeout = 20 * time.Second
+const hangTimeout = 15 * time.Second
 
-func cid(id string) string { return fmt.Sprintf("t%d-%s", hist, id) }
+func cid(id string) string {
+	if id == "d" {
+		if derived == "" {
+			return fmt.Sprintf("unknown:none-yet-%d", hist)
+		}
+		return derived
+	}
+	return fmt.Sprintf("t%d-%s", hist, id)
+}
 
 func symID(c string) string {
+	if c != "" && c == derived {
+		return "d"
+	}
 	p := fmt.Sprintf("t%d-", hist)
 	if strings.HasPrefix(c, p) {
 		return strings.TrimPrefix(c, p)
@@ -166,9 +180,9 @@ func allStacks() string {
 	}
 }
 
-// waitParked returns when goroutine gid is blocked in a channel receive.
+// waitParked returns when goroutine gid is blocked in its select (receive from the notification's channel).
 func waitParked(gid string) bool {
-	want := "goroutine " + gid + " [chan receive"
+	want := "goroutine " + gid + " [select"
 	deadline := time.Now().Add(hangTimeout)
 	for time.Now().Before(deadline) {
 		if strings.Contains(allStacks(), want) {
@@ -182,7 +196,18 @@ func waitParked(gid string) bool {
 // busy: goroutines the package (or the module system on its behalf) started and that are still at work:
 // action function workers, failure status workers, query feeders. The cleaner service worker is not one of them.
 func busy() string {
-	for _, g := range strings.Split(allStacks(), "\n\n") {
+	all := allStacks()
+	// the driver's own listeners: either still waiting (select) or done and parked until the end of the history
+	for _, gid := range listenerGIDs {
+		h := "goroutine " + gid + " ["
+		if i := strings.Index(all, h); i >= 0 {
+			st := all[i+len(h):]
+			if !strings.HasPrefix(st, "select") && !strings.HasPrefix(st, "chan receive") {
+				return "listener " + gid + " on its way"
+			}
+		}
+	}
+	for _, g := range strings.Split(all, "\n\n") {
 		if strings.Contains(g, "notifications.cleaner") || strings.Contains(g, "main.main()") {
 			continue
 		}
@@ -230,11 +255,21 @@ func guarded(fn func()) string {
 
 // ---------------------------------------------------------------- operations
 
+func eventID(o opT) string {
+	if o.ID == "d" {
+		return ""
+	}
+	return cid(o.ID)
+}
+
+func message(o opT) string { return fmt.Sprintf("message %s of history %d", o.ID, hist) }
+
 func newNotification(o opT) *notifications.Notification {
 	n := &notifications.Notification{
-		EventID: cid(o.ID),
-		Type:    notifications.Info,
-		Expires: expiry(o.Exp),
+		EventID:      eventID(o),
+		Type:         notifications.Info,
+		Expires:      expiry(o.Exp),
+		ShowOnSystem: true,
 		AvailableActions: []*notifications.Action{
 			{ID: "x", Text: "X"},
 			{ID: "y", Text: "Y"},
@@ -242,7 +277,7 @@ func newNotification(o opT) *notifications.Notification {
 	}
 	if o.Flag {
 		n.Title = "title " + o.ID
-		n.Message = "message " + o.ID
+		n.Message = message(o)
 	}
 	return n
 }
@@ -276,13 +311,16 @@ func startListener(o *objT, expired bool) string {
 		go func() {
 			defer lwg.Done()
 			gidc <- curGID()
-			_, ok := <-ch
-			if ok {
-				l.set("value")
-			} else {
-				l.set("c")
+			select {
+			case _, ok := <-ch:
+				if ok {
+					l.set("value")
+				} else {
+					l.set("c")
+				}
+				<-rel
+			case <-rel:
 			}
-			<-rel
 		}()
 	} else {
 		ch := o.n.Response()
@@ -290,19 +328,24 @@ func startListener(o *objT, expired bool) string {
 		go func() {
 			defer lwg.Done()
 			gidc <- curGID()
-			v, ok := <-ch
-			switch {
-			case !ok:
-				l.set("c")
-			case v == "":
-				l.set("empty")
-			default:
-				l.set(v)
+			select {
+			case v, ok := <-ch:
+				switch {
+				case !ok:
+					l.set("c")
+				case v == "":
+					l.set("empty")
+				default:
+					l.set(v)
+				}
+				<-rel
+			case <-rel:
 			}
-			<-rel
 		}()
 	}
-	if !waitParked(<-gidc) {
+	gid := <-gidc
+	listenerGIDs = append(listenerGIDs, gid)
+	if !waitParked(gid) {
 		return "listener did not park"
 	}
 	return ""
@@ -323,9 +366,71 @@ func exec(o opT) (ret string) {
 	}
 	switch o.Op {
 	case "notify":
-		n := newNotification(o)
-		objs = append(objs, &objT{n: n})
-		notifications.Notify(n)
+		var n *notifications.Notification
+		if o.Sel == "" {
+			n = newNotification(o)
+			objs = append(objs, &objT{n: n})
+			notifications.Notify(n)
+		} else {
+			var acts []notifications.Action
+			if o.N > 0 {
+				acts = []notifications.Action{{ID: "x", Text: "X"}, {ID: "y", Text: "Y"}}
+			}
+			switch o.Sel {
+			case "info":
+				n = notifications.NotifyInfo(eventID(o), "title "+o.ID, message(o), acts...)
+			case "warn":
+				n = notifications.NotifyWarn(eventID(o), "title "+o.ID, message(o), acts...)
+			case "prompt":
+				n = notifications.NotifyPrompt(eventID(o), "title "+o.ID, message(o), acts...)
+			default:
+				n = notifications.NotifyError(eventID(o), "title "+o.ID, message(o), acts...)
+			}
+			objs = append(objs, &objT{n: n})
+		}
+		if o.ID == "d" && derived == "" {
+			n.Lock()
+			if strings.HasPrefix(n.EventID, "unknown:") {
+				derived = n.EventID
+			}
+			n.Unlock()
+		}
+	case "cfgsys":
+		if err := config.SetConfigOption(notifications.CfgUseSystemNotificationsKey, o.Flag); err != nil {
+			ret = "config: " + err.Error()
+		}
+	case "dbputrace":
+		// several UI clients select at the same moment (released together), half of them x, half of them y
+		var wg sync.WaitGroup
+		sels := []string{"x", "y", "x", "y"}
+		rets := make([]string, len(sels))
+		start := make(chan struct{})
+		for i, sel := range sels {
+			wg.Add(1)
+			go func(i int, sel string) {
+				defer wg.Done()
+				b, _ := json.Marshal(map[string]any{"EventID": cid(o.ID), "SelectedActionID": sel})
+				r, err := record.NewWrapper("notifications:all/"+cid(o.ID), nil, dsd.JSON, b)
+				if err != nil {
+					rets[i] = "wrap"
+					return
+				}
+				<-start
+				if dbi.Put(r) != nil {
+					rets[i] = "err"
+				} else {
+					rets[i] = "ok"
+				}
+			}(i, sel)
+		}
+		time.Sleep(200 * time.Microsecond)
+		close(start)
+		wg.Wait()
+		for _, r := range rets {
+			if r != "ok" {
+				ret = r
+			}
+		}
 	case "save":
 		if needObj() {
 			ob.n.Save()
@@ -389,6 +494,12 @@ func exec(o opT) (ret string) {
 			doc["State"] = "executed"
 		}
 		ret = putRecord("notifications:all/"+cid(o.ID), doc)
+	case "dbputbad":
+		if o.Flag {
+			ret = putRecord("notifications:misc/"+cid(o.ID), map[string]any{"EventID": cid(o.ID), "Message": "m", "SelectedActionID": "x"})
+		} else {
+			ret = putRecord("notifications:all/"+cid(o.ID), map[string]any{"EventID": 7, "State": 5, "SelectedActionID": []string{"x"}})
+		}
 	case "dbdelete":
 		if err := dbi.Delete("notifications:all/" + cid(o.ID)); err != nil {
 			ret = "err"
@@ -431,6 +542,10 @@ func exec(o opT) (ret string) {
 	return ret
 }
 
+func sysOn() bool {
+	return config.Concurrent.GetAsBool(notifications.CfgUseSystemNotificationsKey, true)()
+}
+
 // ---------------------------------------------------------------- observation
 
 type objObs struct {
@@ -444,6 +559,9 @@ type objObs struct {
 	Rl    []string `json:"rl"`
 	El    []string `json:"el"`
 	GUID  int      `json:"guid"`
+	Typ   int      `json:"typ"`
+	Sys   bool     `json:"sys"`
+	Acts  []string `json:"acts"`
 }
 
 type uiObs struct {
@@ -521,6 +639,13 @@ func snapshot() snapT {
 	prefix := fmt.Sprintf("notifications:all/t%d-", hist)
 	s.Q = runQuery(query.New(prefix).MustBeValid())
 	s.Qa = runQuery(query.New(prefix).Where(query.Where("State", query.SameAs, "active")).MustBeValid())
+	if derived != "" {
+		// the derived EventID does not carry the history prefix
+		s.Q = append(s.Q, runQuery(query.New("notifications:all/"+derived).MustBeValid())...)
+		s.Qa = append(s.Qa, runQuery(query.New("notifications:all/"+derived).Where(query.Where("State", query.SameAs, "active")).MustBeValid())...)
+		sort.Ints(s.Q)
+		sort.Ints(s.Qa)
+	}
 	s.Objs = make([]objObs, len(objs))
 	for i, o := range objs {
 		n := o.n
@@ -537,6 +662,16 @@ func snapshot() snapT {
 		}
 		ob.St = string(n.State)
 		ob.Sel = n.SelectedActionID
+		ob.Typ = int(n.Type)
+		ob.Sys = n.ShowOnSystem
+		ob.Acts = []string{}
+		for _, a := range n.AvailableActions {
+			if a == nil {
+				ob.Acts = append(ob.Acts, "nil")
+			} else {
+				ob.Acts = append(ob.Acts, a.ID)
+			}
+		}
 		ob.Exp = expClass(n.Expires)
 		if m := n.Meta(); m != nil {
 			ob.Del = m.IsDeleted()
@@ -600,6 +735,8 @@ func drain() []string {
 			p := fmt.Sprintf("notifications:all/t%d-", hist)
 			if strings.HasPrefix(k, p) {
 				seen[strings.TrimPrefix(k, p)] = true
+			} else if derived != "" && k == "notifications:all/"+derived {
+				seen["d"] = true
 			}
 		default:
 			res := []string{}
@@ -651,7 +788,6 @@ func main() {
 	modules.SetStdErrReporting(false)
 	// the notifications module depends on a module "base" that lives in the application (portmaster)
 	modules.Register("base", nil, nil, nil)
-	testMod = modules.Register("verifmod", nil, nil, nil, "notifications")
 	if err := dataroot.Initialize(dir, 0o755); err != nil {
 		fmt.Fprintln(os.Stderr, "dataroot:", err)
 		os.Exit(2)
@@ -687,6 +823,11 @@ func main() {
 		}
 		hist = n
 		objs = nil
+		derived = ""
+		if !sysOn() {
+			_ = config.SetConfigOption(notifications.CfgUseSystemNotificationsKey, true)
+		}
+		listenerGIDs = nil
 		guids = map[string]int{}
 		release = make(chan struct{})
 		tr.EmitRaw(map[string]any{"e": "new", "h": n})
@@ -698,7 +839,9 @@ func main() {
 			tr.EmitRaw(map[string]any{"e": "try", "op": o, "h": n})
 			tr.Flush()
 			var ret string
+			t0 := time.Now()
 			bad := guarded(func() { ret = exec(o) })
+			ms1 := time.Since(t0).Milliseconds()
 			var snap snapT
 			if bad == "" {
 				var sbad string
@@ -710,6 +853,7 @@ func main() {
 			}
 			pushed := drain()
 			ev := map[string]any{"e": "op", "h": n, "op": o, "ret": ret, "bad": bad, "pushed": pushed,
+				"ms": []int64{ms1, time.Since(t0).Milliseconds()},
 				"get": snap.Get, "db": snap.Db, "ui": snap.UI, "q": snap.Q, "qa": snap.Qa, "objs": snap.Objs}
 			if bad != "" {
 				ev["get"], ev["db"], ev["ui"] = map[string]int{}, map[string]int{}, map[string]int{}
